@@ -340,7 +340,7 @@ func fill(repo asset.Repository, name string, snaps []*asset.Snapshot) error {
 	ch := make(chan *asset.Snapshot)
 	simrt.GoKind("prod", func() {
 		for _, v := range snaps {
-			simrt.Yield(-2, "prod-send")
+			prodYield()
 			ch <- v
 		}
 		simrt.Yield(-3, "prod-close")
